@@ -141,9 +141,11 @@ func (vc *VC) loopHead(st *State, fr *Frame, h, pred *ssa.BasicBlock, back bool,
 		if fr.top {
 			vc.preservesObligations(st, fmt.Sprintf("preserves.loop%d.entry", n))
 		}
+		preLoop := st.clone()
 		vc.havocAll(st)
 		if fr.top {
 			vc.preservesObligations(st, fmt.Sprintf("preserves.loop%d.assume", n))
+			vc.keepCaptured(st, preLoop, fr)
 		}
 	} else {
 		for _, k := range keys {
